@@ -58,6 +58,7 @@ def strategy(tier):
     return st.builds(
         lambda cs, s2c, c2s, j, gate, nz, mode, hole, fg: dict({"callers": cs, "s2c": s2c, "c2s": c2s, "jitter": j, "gate": gate}, **({"noise": nz} if nz else {}),
                                                             **({"foreign": True} if fg and gate in ("open", "outage") else {}),
+                                                            **({"damage": True} if (hole + len(cs)) % 5 == 0 and gate == "open" and mode != "active" and not nz else {}),
                                                             **({"mode": "active"} if mode == "active" and gate != "open" else {}),
                                                             **({"hole": hole} if hole and gate == "open" and any(c[1] == "refresh" for c in cs) else {}),
                                                             **({"outage_age": [5.0, 6.5, 8.0, 9.5, 10.5, 12.0, 14.0, 20.0][(hole + len(cs) + len(s2c)) % 8]} if gate == "outage" else {})),
@@ -141,7 +142,13 @@ def run_case(case) -> Result:
                     def factory():
                         rec["creates"] += 1
                         return GeckoGetChannelProtocolHandler.request(proto.get_and_increment_sequence_counter(False), parms=spa.sendparms)
-                    r = await proto.get(factory, None, retry)
+                    try:
+                        r = await proto.get(factory, None, retry)
+                    except Exception as exc:  # noqa
+                        if not damage["on"]:
+                            raise
+                        r = None                  # an undecodable reply surfaces as an error of the call: a failure, not a reply
+                        rec["raised"] = repr(exc)
                     rec["result"] = r is not None
                 elif kind == "press":
                     await spa.async_press(1 + ix % 5)
@@ -160,6 +167,17 @@ def run_case(case) -> Result:
                     raise InvalidCase(kind)
                 rec["t_return"] = W.clock.t
 
+            damage = {"on": bool(case.get("damage")) and gate == "open" and any(c_[1] == "get" for c_ in case["callers"]), "left": 1, "n": 0}
+            if damage["on"]:
+                # the first channel reply arrives with the right verb but a payload the decoder cannot read
+                def dmg(data):
+                    i_ = data.find(b"<DATAS>CHCUR")
+                    if i_ >= 0 and damage["left"] > 0:
+                        damage["left"] -= 1
+                        damage["n"] += 1
+                        return ("replace", data[:i_ + 12] + b"\x07" + b"</DATAS></PACKT>")
+                    return None
+                W.s2c_filter = dmg
             noise = case.get("noise")
             if noise:
                 n_start, n_count, n_gap = float(noise[0]), min(int(noise[1]), 60), max(int(noise[2]), 50) / 1000.0
@@ -345,7 +363,10 @@ def run_case(case) -> Result:
                 # multi-segment answer (cancelled or failed status request) or a noise stream leaves datagrams that delay everything
                 # behind them by up to 6 x (poll + J) each.  (Whether a status transfer succeeds under loss is C01's question.)
                 backlog = bool(noise) or bool(cancelled_ix) or any(c_[1] == "refresh" for c_ in case["callers"]) or bool(case.get("foreign"))
-                if "result" in rec and rec["kind"] != "refresh" and not backlog:
+                if damage["on"] and rec["kind"] == "get" and rec.get("result") and not any(
+                        _verb(d_) == b"CHCUR" and len(R.unframe(d_)[2]) == 7 for t_, _, d_ in deliv if sends and t_ >= sends[0][0] - 1.0):
+                    res.fail("C06|damaged-reply-accepted|get", f"{name} returned a reply although the only channel reply delivered during its attempts was undecodable")
+                if "result" in rec and rec["kind"] != "refresh" and not backlog and not damage["on"]:
                     # (a stream of unclaimed datagrams lets a reply wait in the receive queue beyond any attempt window, so the
                     # attribution of replies to attempts by time is only judged without one)
                     if rec["result"] and not maybe:
@@ -371,6 +392,8 @@ def run_case(case) -> Result:
         res.label("noise-stream")
     if case.get("foreign"):
         res.label("foreign-module-addresses-our-client-id")
+    if case.get("damage"):
+        res.label("undecodable-reply")
     if stats["cancelled"]:
         res.label("caller-cancelled-mid-request")
     if case.get("hole"):
